@@ -4,7 +4,7 @@ CONSTANTS
   Validators <- MCValidators
   OpIds <- MCOpIds
   Alphabet <- AlphaMid
-  Setups <- SetupsQuick
+  Setups <- SetupsCover
   MaxEvents = 3
   MaxBlocks = 3
   MaxFaults = 1
